@@ -438,6 +438,7 @@ type Layout struct {
 	TrailingWs   bool
 	BodySameLine bool // put short bodies on the directive line where possible (not used for multi-line)
 	TabSep       bool // separate keyword / parameters / annotation by tabs and runs of blanks, not only by one blank
+	AnnStars     bool // block annotations may end in a run of stars right before the closing */ (scan cases only: the value changes)
 	rng          *PRNG
 }
 
@@ -751,8 +752,18 @@ func (r *renderer) node(n *DNode, depth int, first bool) {
 	if n.Ann != "" {
 		if l.BlockAnn {
 			b.WriteString(sep() + "/*")
-			r.lex = append(r.lex, ExpLex{"A", b.Len(), b.Len() + len(n.Ann) + 1}) // " ann " between the delimiters
-			b.WriteString(" " + n.Ann + " */")
+			if l.AnnStars && rng.Chance(1, 2) {
+				// the text ends in 1..4 stars, directly followed by the closing */ : "/* ann **/", "/***/"
+				txt := " " + n.Ann + strings.Repeat("*", 1+rng.Intn(4))
+				if rng.Chance(1, 4) {
+					txt = strings.Repeat("*", 1+rng.Intn(3))
+				}
+				r.lex = append(r.lex, ExpLex{"A", b.Len(), b.Len() + len(txt) - 1})
+				b.WriteString(txt + "*/")
+			} else {
+				r.lex = append(r.lex, ExpLex{"A", b.Len(), b.Len() + len(n.Ann) + 1}) // " ann " between the delimiters
+				b.WriteString(" " + n.Ann + " */")
+			}
 		} else {
 			b.WriteString(sep() + "//")
 			start := b.Len()
